@@ -103,6 +103,7 @@ def write_release(path, rows, columns, header=True):
 
 
 _update_counter = {"n": 0}
+RNG_SEED = {"v": 20240917}
 _patched = False
 
 
@@ -119,10 +120,23 @@ def _patch_model():
         return orig(self)
 
     ladim.model.Model.update = update
+
+    # The stock Tracker seeds its generator from the OS; every end-to-end run of the harness gets a
+    # generator seeded from RNG_SEED instead, so that a run is a pure function of the scenario.
+    import ladim.tracker
+
+    tinit = ladim.tracker.Tracker.__init__
+
+    def tracker_init(self, *a, **kw):
+        tinit(self, *a, **kw)
+        if hasattr(self, "rng"):
+            self.rng = np.random.default_rng(RNG_SEED["v"])
+
+    ladim.tracker.Tracker.__init__ = tracker_init
     _patched = True
 
 
-def run_main(conf_path, cwd=None):
+def run_main(conf_path, cwd=None, rng_seed=20240917):
     """Run ladim.main.main(conf_path) in-process.
 
     Returns dict(status = 'ok' | 'exit' | 'exc', exc = repr, tb = text, updates = int)
@@ -132,6 +146,7 @@ def run_main(conf_path, cwd=None):
     from ladim.main import main
 
     _update_counter["n"] = 0
+    RNG_SEED["v"] = int(rng_seed)
     recorder.reset()
     old = os.getcwd()
     if cwd:
